@@ -43,7 +43,7 @@ func unbondProfile() Profile {
 func slashProfile() Profile {
 	p := baseProfile()
 	p.Name = "slash"
-	p.Weights = map[string]int{KDelegate: 22, KUndelegate: 12, KRedelegate: 18, KClaim: 3, KBlock: 14, KSlashHook: 12, KSlash: 10, KUnbTime: 2, KJail: 1, KUnjail: 1, KDelete: 1, KCreate: 1, GRedelThenExit: 5, GMultiRedelSlash: 3, GPackBucket: 4, GMultiUnbondSlash: 3, KReimport: 3, GDeletePending: 2}
+	p.Weights = map[string]int{KDelegate: 22, KUndelegate: 12, KRedelegate: 18, KClaim: 3, KBlock: 14, KSlashHook: 12, KSlash: 10, KUnbTime: 2, KJail: 1, KUnjail: 1, KDelete: 1, KCreate: 1, GRedelThenExit: 5, GMultiRedelSlash: 3, GPackBucket: 4, GMultiUnbondSlash: 3, KReimport: 3, GDeletePending: 2, GFanInSlash: 4}
 	p.FocusDelPct = 40
 	return p
 }
@@ -372,7 +372,7 @@ func init() {
 		Profile: func(tier string) Profile {
 			p := slashProfile()
 			p.Name = "redelegate"
-			p.Weights = map[string]int{KDelegate: 22, KUndelegate: 8, KRedelegate: 30, KClaim: 2, KBlock: 20, KSlashHook: 3, KSlash: 3, KUnbTime: 3, GShareFraction: 4, KReimport: 3}
+			p.Weights = map[string]int{KDelegate: 22, KUndelegate: 8, KRedelegate: 30, KClaim: 2, KBlock: 20, KSlashHook: 3, KSlash: 3, KUnbTime: 3, GShareFraction: 4, KReimport: 3, GFanInSlash: 4, GIntoSlashed: 3}
 			p.InvalidPct = 4
 			return tierSteps(p, tier)
 		},
